@@ -311,6 +311,8 @@ func (s *c14SnapWorld) run(tr *Trace, spec c14SnapSpec) {
 			s.withdrawals(tr, ctx, fmt.Sprintf("in/b%d", i), true)
 		}
 	}
+	st, _ := w.app.EsmKeeper.GetESMStatus(ctx, s.app)
+	tr.Count(fmt.Sprintf("world:%s:snapshot-complete=%v", strings.SplitN(spec.name, "/", 2)[0], st.SnapshotStatus))
 	s.afterCoolOff(tr, ctx, spec.base)
 }
 
